@@ -727,3 +727,12 @@ V('c17-header-none', 'C17', 'C17.R2',
 V('c17-length-of-str', 'C17', 'C17.R6',
   (LSF, "        if isinstance(resp_body, str):\n            resp_body = resp_body.encode(\"utf-8\")\n\n        http_code = 200\n        self.send_response(http_code, http.client.responses.get(http_code, ''))\n        self.send_header(\"Content-Type\", \"text/xml\")\n        self.send_header(\"Content-Length\", str(len(resp_body)))\n        self.send_header(\"CIMExport\", \"MethodResponse\")\n        self.end_headers()\n        self.wfile.write(resp_body)",
    "        http_code = 200\n        self.send_response(http_code, http.client.responses.get(http_code, ''))\n        self.send_header(\"Content-Type\", \"text/xml\")\n        self.send_header(\"Content-Length\", str(len(resp_body)))\n        self.send_header(\"CIMExport\", \"MethodResponse\")\n        self.end_headers()\n        self.wfile.write(resp_body.encode(\"utf-8\"))", 2), 'length-of-other-object')
+
+# ---- C02.R4b / C02.R7 ------------------------------------------------------------
+V('c02-type-guard-dollar', 'C02', 'C02.R4b',
+  ('pywbem/_tupleparse.py', "NUMERIC_CIMTYPE_PATTERN = re.compile(r'^([su]int(8|16|32|64)|real(32|64))\\Z')", "NUMERIC_CIMTYPE_PATTERN = re.compile(r'^([su]int(8|16|32|64)|real(32|64))$')"), 'guard-wider-than-table')
+V('c02-type-guard-extra-name', 'C02', 'C02.R4b',
+  ('pywbem/_tupleparse.py', "NUMERIC_CIMTYPE_PATTERN = re.compile(r'^([su]int(8|16|32|64)|real(32|64))\\Z')", "NUMERIC_CIMTYPE_PATTERN = re.compile(r'^([su]int(8|16|32|64|128)|real(32|64))\\Z')"), 'guard-wider-than-table')
+V('c02-fstring-template', 'C02', 'C02.R7',
+  ('pywbem/_tupletree.py', "                \"Line {0} column {1} of XML string (as binary UTF-8 string):\\n\"\n                \"{2}\\n\"\n                \"{3}\",\n                lineno, colno, line, marker_line)",
+   "                f\"Line {lineno} column {colno} of XML string (as binary UTF-8 \"\n                \"string):\\n\"\n                f\"{line}\\n\"\n                f\"{marker_line}\")"), 'format')
